@@ -26,7 +26,9 @@ RefC(c) ==
 RefE(e) ==
   CASE e.k = "col" -> JoinS([i \in 1..(Len(Get(e, "q", <<>>)) + 1) |-> IF i <= Len(Get(e, "q", <<>>)) THEN QId(e.q[i]) ELSE IF e.n = "*" THEN "*" ELSE QId(e.n)], ".")
     [] e.k \in {"val", "const"} -> RefLit(e.v)
-    [] e.k = "bin" -> P(P(RefE(e.l)) \o " " \o OpText("sqlite", e.op) \o " " \o P(RefE(e.r)))
+    [] e.k = "bin" -> IF e.op \in {"In", "NotIn"} /\ e.r.k = "tuple"
+                      THEN P(P(RefE(e.l)) \o " " \o OpText("sqlite", e.op) \o " " \o RefE(e.r))       \* the tuple is the list itself
+                      ELSE P(P(RefE(e.l)) \o " " \o OpText("sqlite", e.op) \o " " \o P(RefE(e.r)))
     [] e.k = "not" -> P("NOT " \o P(RefE(e.e)))
     [] e.k = "between" -> P(P(RefE(e.e)) \o (IF Neg(e) THEN " NOT" ELSE "") \o " BETWEEN " \o P(RefE(e.a)) \o " AND " \o P(RefE(e.b)))
     [] e.k = "like" -> P(P(RefE(e.e)) \o (IF Neg(e) THEN " NOT" ELSE "") \o " LIKE " \o LitStr(e.p) \o (IF "esc" \in DOMAIN e THEN " ESCAPE " \o LitStr(e.esc) ELSE ""))
@@ -37,6 +39,8 @@ RefE(e) ==
     [] e.k = "cast" -> "CAST(" \o P(RefE(e.e)) \o " AS " \o e.ty \o ")"
     [] e.k = "fn" -> FuncName("sqlite", e.f) \o "(" \o JoinS([i \in DOMAIN e.args |-> (IF e.f = "CountDistinct" THEN "DISTINCT " ELSE "") \o RefE(e.args[i])], ", ") \o ")"
     [] e.k = "tuple" -> "(" \o RefList(e.es) \o ")"
+    [] e.k = "vals" -> "(" \o JoinS([i \in DOMAIN e.vs |-> RefLit(e.vs[i])], ", ") \o ")"
+    [] e.k = "asenum" -> RefE(e.e)
     [] e.k = "case" -> "(CASE" \o ConcatAll([i \in DOMAIN e.whens |-> " WHEN " \o P(RefC(e.whens[i].c)) \o " THEN " \o P(RefE(e.whens[i].r))])
                        \o (IF "else" \in DOMAIN e THEN " ELSE " \o P(RefE(e.else)) ELSE "") \o " END)"
     [] e.k = "subq" -> (IF "op" \in DOMAIN e THEN UpperStr(e.op) \o " " ELSE "") \o "(" \o RefS(BuildStmt(e.q)) \o ")"
